@@ -52,6 +52,8 @@ fn main() {
             &args[7],
         ),
         "gen" if args.len() >= 5 => gen_main(find(&args[2]), tier(&args[3]), args[4].parse().unwrap()),
+        "seeds" if args.len() >= 5 => altrios_verif::engine::run::seeds_main(find(&args[2]), &args[3], args[4].parse().unwrap()),
+        "from-bytes" if args.len() >= 4 => altrios_verif::engine::run::from_bytes_main(find(&args[2]), &args[3]),
         "one" if args.len() >= 5 => one_main(find(&args[2]), &args[3], &args[4]),
         "probe-walk" if args.len() >= 3 => props::train_run::probe_walk_main(&args[2]),
         _ => usage(),
